@@ -96,6 +96,59 @@ static std::string embed_with(Arch arch, bool builder, const std::vector<uint8_t
          std::to_string(S.pool->alignment()) + " " + hex_or_dash(text->data(), text->buffer_size());
 }
 
+// `compile <arch> (l|g):<hex> ...`: BaseCompiler::_new_const for every item inside one function, end_func, finalize.
+// Output: `cc <answer> | <answer> ... || L <emb answer> || G <emb answer>`; each <answer> is what `add` would print
+// (`ok off size align min` / `err Name size align min`), each <emb answer> is `emb <label offset> <size> <align> <text[0, label+size)>`.
+template<typename CompT>
+static std::string compile_with(Arch arch, const std::vector<std::string>& w) {
+  Environment env(arch);
+  CodeHolder code;
+  if (code.init(env) != Error::kOk) return "err init";
+  CompT cc(&code);
+  cc.add_func(FuncSignature::build<void>());
+  ConstPoolNode* pools[2] = { nullptr, nullptr };
+  std::string out = "cc";
+  for (size_t i = 2; i < w.size(); i++) {
+    if (w[i].size() < 3 || w[i][1] != ':' || (w[i][0] != 'l' && w[i][0] != 'g')) return "bad-op";
+    uint32_t scope = w[i][0] == 'g';
+    std::vector<uint8_t> d;
+    if (!vh::hex_to_bytes(w[i].substr(2), d)) return "bad-op";
+    std::unique_ptr<uint8_t[]> copy(new uint8_t[d.size() ? d.size() : 1]);
+    if (!d.empty()) memcpy(copy.get(), d.data(), d.size());
+    BaseMem m;
+    Error e = cc._new_const(Out<BaseMem>(m), ConstPoolScope(scope), copy.get(), d.size());
+    if (cc._const_pools[scope]) pools[scope] = cc._const_pools[scope];
+    ConstPoolNode* pn = pools[scope];
+    std::string t3 = pn ? std::to_string(pn->size()) + " " + std::to_string(pn->alignment()) + " " + std::to_string(pn->const_pool().min_item_size()) : "0 0 0";
+    if (i > 2) out += " |";
+    out += std::string(" ") + char(w[i][0]) + " ";
+    if (e == Error::kOk) {
+      if (!pn || m.base_id() != pn->label_id()) return "err const-mem-does-not-name-the-pool-label";
+      if (m.signature().size() != d.size()) return "err const-mem-size";
+      out += "ok " + std::to_string(m.offset()) + " " + t3;
+    }
+    else
+      out += std::string("err ") + (e == Error::kInvalidArgument ? "InvalidArgument" : DebugUtils::error_as_string(e)) + " " + t3;
+  }
+  // _new_const on an invalid size puts the emitter into error state only if an error handler is attached (none here)
+  Error e = cc.end_func();
+  if (e != Error::kOk) return std::string("err end_func ") + DebugUtils::error_as_string(e);
+  e = cc.finalize();
+  if (e != Error::kOk) return std::string("err finalize ") + DebugUtils::error_as_string(e);
+  Section* text = code.text_section();
+  for (uint32_t scope = 0; scope < 2; scope++) {
+    out += scope ? " || G " : " || L ";
+    ConstPoolNode* pn = pools[scope];
+    if (!pn) { out += "none"; continue; }
+    if (!code.is_label_bound(pn->label_id())) { out += "unbound"; continue; }
+    size_t lo = size_t(code.label_offset(pn->label_id()));
+    size_t end = lo + pn->size();
+    if (end > text->buffer_size()) { out += "beyond-section"; continue; }
+    out += "emb " + std::to_string(lo) + " " + std::to_string(pn->size()) + " " + std::to_string(pn->alignment()) + " " + hex_or_dash(text->data(), end);
+  }
+  return out;
+}
+
 static std::string step(const std::string& line) {
   std::vector<std::string> w = vh::words(line);
   if (w.empty()) return "bad-op";
@@ -125,6 +178,11 @@ static std::string step(const std::string& line) {
     if (!bld && w[2] != "asm") return "bad-op";
     if (w[1] == "x86") return embed_with<x86::Assembler, x86::Builder>(Arch::kX64, bld, pre);
     if (w[1] == "a64") return embed_with<a64::Assembler, a64::Builder>(Arch::kAArch64, bld, pre);
+    return "bad-op";
+  }
+  if (w[0] == "compile" && w.size() >= 3) {
+    if (w[1] == "x86") return compile_with<x86::Compiler>(Arch::kX64, w);
+    if (w[1] == "a64") return compile_with<a64::Compiler>(Arch::kAArch64, w);
     return "bad-op";
   }
   return "bad-op";
